@@ -38,8 +38,13 @@ pub fn generate(s: &mut Session, tier: &str, rng: &mut Rng) {
     let tcp_faults = ["server-junk", "server-junk-reset", "server-stall", "server-half", "ws-fail", "accept-emfile", "local-junk", "local-stall"];
     let tls_faults = ["tls-fail", "tls-stall"];
     let udp_faults = ["server-udp-junk", "server-udp-replay", "server-udp-unresolvable", "local-udp-junk", "local-udp-unresolvable"];
-    for base in picks {
+    for (ci, base) in picks.into_iter().enumerate() {
         for t in &transports {
+            // quick tier: plain tcp plus one other transport per configuration, rotating so that each is used
+            let others = ["ws", "tls", "wss"];
+            if !thorough && *t != "tcp" && *t != others[ci % others.len()] {
+                continue;
+            }
             let cfg = base.with(t);
             s.begin_case(&format!("faults:{}", cfg.label()));
             let Some(w) = cfg.start(s, false, 4) else {
